@@ -21,6 +21,11 @@
 (*   "P1w" / "P5w" first exchange / re-exchange: the endpoint has sent its   *)
 (*        own NEWKEYS (its key exchange object is gone) and waits for the   *)
 (*        peer's NEWKEYS; receive keys are still the old ones               *)
+(*   "P1g" first key exchange running and the peer's KEXINIT announced a    *)
+(*        guessed first packet (first_kex_packet_follows) for a method     *)
+(*        that was NOT negotiated: RFC 4253 section 7 - "the next packet   *)
+(*        MUST be silently ignored" means the next KEY EXCHANGE packet;    *)
+(*        anything else is judged as in "P1" (a peer gets no free packet)  *)
 (*   "P4n" authenticated, right after the NEWKEYS of a re-exchange (the    *)
 (*        code re-opens the EXT_INFO window at every NEWKEYS, RFC 8308     *)
 (*        allows it after the first one only; accepted without effect)     *)
@@ -29,7 +34,9 @@ EXTENDS Naturals, FiniteSets, TLC
 
 CONSTANTS AuthGate,     \* TRUE: messages above 79 are refused before authentication (as coded)
           RoleCheck,    \* TRUE: handlers check the role of the receiver (as coded)
-          StaleAuthHandler \* TRUE: sensitivity variant (a finished method handler stays installed)
+          StaleAuthHandler, \* TRUE: sensitivity variant (a finished method handler stays installed)
+          GuessSwallowsAny  \* TRUE: sensitivity variant (a wrong guess makes the endpoint drop the next
+                            \*       packet of ANY type, ahead of every gate)
 
 Roles == {"client", "server"}
 \* "P3"  authentication in progress AND a method's message exchange is outstanding (a handler is
@@ -37,7 +44,7 @@ Roles == {"client", "server"}
 \* "P3n" authentication in progress, no exchange outstanding (before the first request, after a
 \*       FAILURE): 60..79 is out of phase - "Authentication not in progress".  StaleAuthHandler
 \*       is the sensitivity variant in which the finished handler still takes them.
-Phases == {"P0", "P1", "P2", "P3", "P3n", "P4", "P5", "P4n", "P1w", "P5w"}
+Phases == {"P0", "P1", "P1g", "P2", "P3", "P3n", "P4", "P5", "P4n", "P1w", "P5w"}
 InAuth(ph) == ph \in {"P3", "P3n"}
 Classes == {"DISCONNECT", "IGNORE", "UNIMPLEMENTED", "DEBUG", "SERVICE_REQUEST",
             "SERVICE_ACCEPT", "EXT_INFO", "KEXINIT", "NEWKEYS", "KEXMSG", "KEXOTHER",
@@ -47,7 +54,7 @@ Classes == {"DISCONNECT", "IGNORE", "UNIMPLEMENTED", "DEBUG", "SERVICE_REQUEST",
 \* KEXMSG = a 30..49 type the running exchange handles at this point; KEXOTHER = one it does not.
 \* UNKNOWN_LOW = unassigned type <= 49, UNKNOWN_MID = unassigned 54..59, UNKNOWN_HIGH = unassigned > 79
 
-Encrypted(ph) == ph \notin {"P0", "P1", "P1w"}
+Encrypted(ph) == ph \notin {"P0", "P1", "P1g", "P1w"}
 KexRunning(ph) == ph \in {"P1", "P5"}
 AuthComplete(ph) == ph \in {"P4", "P5", "P4n", "P5w"}
 Above49(c) == c \in {"USERAUTH_REQUEST", "USERAUTH_FAILURE", "USERAUTH_SUCCESS",
@@ -61,7 +68,7 @@ Above79(c) == c \in {"GLOBAL_REQUEST", "REQUEST_REPLY", "CHANNEL_OPEN", "CHANNEL
 \* unexpected is tolerated before the first NEWKEYS
 Unhandled(ph, strict) == IF strict /\ ~Encrypted(ph) THEN "fatal" ELSE "unimpl"
 
-Outcome(role, ph, c, strict) ==
+Outcome0(role, ph, c, strict) ==
     \* _recv_packet, in code order
     IF c \in {"KEXMSG", "KEXOTHER"} THEN
         IF KexRunning(ph)
@@ -107,10 +114,17 @@ Outcome(role, ph, c, strict) ==
     ELSE IF c = "CHANNEL_REPLY" THEN "fatal"          \* invalid channel number
     ELSE Unhandled(ph, strict)
 
+Outcome(role, ph, c, strict) ==
+    IF ph = "P1g" THEN
+        IF GuessSwallowsAny \/ c \in {"KEXMSG", "KEXOTHER"} THEN "ignore"   \* the wrongly guessed packet
+        ELSE Outcome0(role, "P1", c, strict)
+    ELSE Outcome0(role, ph, c, strict)
+
 \* what the protocol calls for at each phase (everything else is out of phase)
 Expected(role, ph) ==
     CASE ph = "P0" -> {"KEXINIT"}
       [] ph = "P1" -> {"KEXMSG", "NEWKEYS"}
+      [] ph = "P1g" -> {"KEXMSG", "KEXOTHER", "NEWKEYS"}
       [] ph = "P2" -> {"KEXINIT", "EXT_INFO", "DISCONNECT"} \cup
                       (IF role = "server" THEN {"SERVICE_REQUEST", "USERAUTH_REQUEST"} ELSE {"SERVICE_ACCEPT"})
       [] ph = "P3" -> {"KEXINIT", "DISCONNECT", "AUTH60"} \cup
@@ -142,8 +156,13 @@ NoEffectOutOfPhase ==
     cls \notin Expected(role, ph) => Outcome(role, ph, cls, strict) \in {"fatal", "ignore", "unimpl"}
 \* strict key exchange: nothing but key exchange messages before the first NEWKEYS
 StrictNoFiller ==
-    (strict /\ ~Encrypted(ph) /\ cls \notin {"KEXINIT", "KEXMSG", "NEWKEYS"})
+    (strict /\ ~Encrypted(ph) /\ cls \notin {"KEXINIT", "KEXMSG", "NEWKEYS"}
+            /\ ~(ph = "P1g" /\ cls = "KEXOTHER"))       \* the guessed packet of another method
         => Outcome(role, ph, cls, strict) = "fatal"
+\* a wrong guess costs the peer exactly its guessed key exchange packet
+GuessSwallowsKexOnly ==
+    (ph = "P1g" /\ cls \notin {"KEXMSG", "KEXOTHER"})
+        => Outcome(role, ph, cls, strict) = Outcome0(role, "P1", cls, strict)
 \* a message only the other role may send is never processed
 RoleRespected ==
     /\ (role = "client" /\ cls \in {"SERVICE_REQUEST", "USERAUTH_REQUEST"})
